@@ -213,6 +213,23 @@ def flo_programs(tier):
                     progs.append(("R6 W period %d ticks (%s); A: bid %s W at tick %d, then stop B + stop me; A %s"
                                   % (pt, sched, verb, j, "before W" if a_first else "after W"), [A, B, W] if a_first else [W, B, A],
                                   {"W": expect}))
+    # R7: outline a > b > (c | d); conditional auxiliary H on b (never done) suspends c while it runs; a, above b,
+    #     then evaluates `go d` (a frame below the suspension point).  Whatever the transition machinery does
+    #     with that, every frame M entered must have been exited when the run is over, however it ends
+    for hold_at, go_at in (((1, 2), (1, 3)) if tier != "thorough" else ((1, 2), (1, 3), (2, 3), (0, 1))):
+        for k_first in (True, False):
+            M = ["framer M be active first c",
+                 "   frame a"] + rec3("a", 6) + ["      go d if flag.go == 1",
+                 "      frame b in a"] + rec3("b", 9) + ["         aux H if flag.hold == 1",
+                 "         frame c in b"] + rec3("c", 12) + [
+                 "         frame d in b"] + rec3("d", 12)
+            H = ["framer H be aux first h1", "   frame h1"] + rec3("h1", 6)
+            K = ["framer K be active first k0"] + chain2("k", "ktop", go_at + 4,
+                                                         {hold_at: ["put 1 into flag.hold"], go_at: ["put 1 into flag.go"],
+                                                          go_at + 2: ["put 0 into flag.go"]})
+            inits = ["init flag.hold with 0", "init flag.go with 0"]
+            progs.append(("R7 a>b>(c|d), aux H if flag.hold on b from tick %d, go d from a at tick %d, K %s"
+                          % (hold_at, go_at, "first" if k_first else "last"), [inits, K, M, H] if k_first else [inits, M, H, K]))
     out = []
     for item in progs:
         title, blocks = item[:2]
